@@ -5,6 +5,7 @@ import A2Verif.Model.C09Td0
 import A2Verif.Model.C09Dot2mg
 import A2Verif.Model.C09Woz
 import A2Verif.Model.C09Meta
+import A2Verif.Drv.C08Img
 /-!
 Driver family `c09`.  Requests (blank separated tokens, bytes as hex, empty = `-`):
 
@@ -26,6 +27,13 @@ Driver family `c09`.  Requests (blank separated tokens, bytes as hex, empty = `-
 * `c09 woz2save <hex>`                   → `<offset after load> <offset after to_bytes> <length> <crc field> stable|unstable reparse-ok|…`
                                             of the WOZ2 object model (`fromBytes2`, `toBytes2` twice) | `err` | `panic`
 * `c09 metaput <type> </key/path> <hex of the UTF-8 value>` → `refused` | `skipped` (read-only) | `ok <hex of the leaf get_metadata shows>`
+* `c09 imdseq <hex file> <ops>`, `c09 td0seq <hex file> <ops>` → op sequences (sector writes, metadata edits, save,
+                                            reload) on a loaded image, see `Drv/C08Img.lean`
+* `c09 mgforeign <file> <vc:0|1> <vr:0|1> <fixLen:0|1>` → `from_bytes` of a 2MG file another program wrote, then `to_bytes`: `err` |
+                                            `<hex of the 64 header bytes saved> <length saved> <fnv1a-64 of the bytes saved>`;
+                                            `<file>` = `,`-separated pieces, each hex or `z<n>` (n zero bytes); `vc`/`vr` =
+                                            the comment / creator extent is valid UTF-8; `fixLen` = the tree resets the
+                                            header-length field on save (probed by the harness)
 * `c09 wozchunks <hex>`                  → chunk walk of `get_next_chunk` from offset 12:
                                             `<id>@<ptr>+<size>[!]` … (`!` = unknown id)
 -/
@@ -169,8 +177,27 @@ def td0Img (toks : List String) : String :=
     | _, _, _ => "bad-request"
   | _ => "bad-request"
 
+/-- a file as `,`-separated pieces: hex, or `z<n>` for `n` zero bytes -/
+def ofPieces (s : String) : Option (List Nat) :=
+  (s.splitOn ",").foldr (fun p acc =>
+    match acc with
+    | none => none
+    | some rest =>
+      match p.toList with
+      | 'z' :: n => (String.ofList n).toNat?.map (fun k => List.replicate k 0 ++ rest)
+      | _ => (ofHexFast p).map (· ++ rest)) (some [])
+
 def handle (toks : List String) : String :=
   match toks with
+  | ["mgforeign", f, vc, vr, fx] =>
+    match ofPieces f with
+    | some bs =>
+      match C09Dot2mg.fromBytesV (vc == "1") (vr == "1") bs with
+      | some x =>
+        let b := C09Dot2mg.toBytesF (fx == "1") x
+        s!"{toHexFast (b.take 64)} {b.length} {C08Img.fnv b}"
+      | none => "err"
+    | none => "bad-request"
   | ["crc32", h] =>
     match ofHexFast h with
     | some bs => match C09Crc.crc32 0 bs with
@@ -240,6 +267,8 @@ def handle (toks : List String) : String :=
         | some v => "ok " ++ toHexFast v
         | none => "ok ?"
     | none => "bad-request"
+  | "imdseq" :: _ => (C08Img.handle toks).getD "bad-request"
+  | "td0seq" :: _ => (C08Img.handle toks).getD "bad-request"
   | ["wozchunks", h] =>
     match ofHexFast h with
     | some bs => C09Woz.showWalk (C09Woz.walk bs)
